@@ -8,7 +8,7 @@ import operator
 from . import error
 import datetime
 import time
-from dateutil.parser import parse as to_date
+from dateutil import parser as dateutil_parser
 
 DEFAULT = lambda: 0
 
@@ -172,23 +172,24 @@ def epoch_seconds(date):
     return (date - epoch).total_seconds()
 
 
+class DateTextInfo(dateutil_parser.parserinfo):
+    def convertyear(self, year, century_specified=False):
+        # dateutil reads a two-digit year inside a window of a hundred years around the year
+        # in which it was imported; a sheet reads 00-29 as 2000-2029 and 30-99 as 1930-1999
+        if year < 100 and not century_specified:
+            year += 2000 if year < 30 else 1900
+        return year
+
+
+DATE_TEXT_PARSER = dateutil_parser.parser(DateTextInfo())
+
+
 def text_to_date(text):
     # dateutil takes what a text leaves out from a default date-time - today, if none is given:
     # "March 2020" then meant another day on every day of the month (and no date at all on the
-    # 31st), and "10:30" carried the date of the evaluation.  A day or month left out is the
-    # first one, a year left out is the current year (as in a sheet), and a time of day with no
-    # date at all is that time on the day TIME() uses
-    first = datetime.datetime(datetime.date.today().year, 1, 1)
-    date = to_date(text, default=first)
-    if date.date() == first.date():
-        second = first.replace(month=2, day=2)
-        try:
-            other = to_date(text, default=second)
-        except (ValueError, OverflowError):
-            other = date
-        if other.date() == second.date():  # neither year, month nor day came from the text
-            date = datetime.datetime.combine(date_1900, date.timetz())
-    return date
+    # 31st), "10:30" carried the date of the evaluation and "5 March" its year.  What a text leaves
+    # out is taken from 1 January 1900, the day TIME() uses: the same text is the same date always
+    return DATE_TEXT_PARSER.parse(text, default=date_1900)
 
 
 def parse_date(date):
